@@ -158,6 +158,32 @@ def rule_flush_ordering(cx):
     dom(cx, ob, fc, sp, "flush before WAL clean-up")
 
 
+SYNC_CALLS = {"std::fs::File::sync_all", "std::fs::File::sync_data", "File::sync_all", "vfs::File::sync", "vfs::File::sync_all", "SysFile::sync_all"}
+
+
+def rule_tables_fsynced_before_install(cx):
+    """Every function that finishes a table file (TableWriter::finish) hands it on only after fsyncing it: the manifest that
+    is written next references the table, the inputs (memtable + WAL segment, or the merged tables) are released right
+    after, so under the power-loss model (only fsynced file data survives) an unsynced table loses acknowledged commits.
+    Sibling cross-check: flush and compaction are the two producers of tables and must both do it."""
+    f = cx.f
+    cs = f.callers_of("TableWriter::finish")
+    cx.floor("table producers (TableWriter::finish call sites)", len(cs), 2)
+    for c in cs:
+        b = c.body
+        owner = f.fn_of(b).id
+        sy = [x for x in b.calls if x.bb in b.live and (x.names & SYNC_CALLS or x.primary.endswith("::sync_all") or x.primary.endswith("::sync_data"))]
+        oks = [x for x, k in exits(b) if k in ("ok", "tail")]
+        if not sy:
+            cx.bad("table-finish-without-fsync|%s" % owner, "`%s` finishes a table file and returns without fsyncing it; the manifest written next references the table and "
+                   "the inputs are deleted: after a power loss the table's blocks can be missing although its commits were acknowledged long ago" % owner, c.where(), fn=owner)
+            continue
+        mpt(cx, b, [c], sy, "`%s`: the finished table is fsynced before it is handed on" % owner, to=oks, key="table-finish-without-fsync")
+        for x in sy:
+            fate = result_fate(b, x)
+            cx.check(fate in (None, "propagated", "handled"), "`%s`: a failed table fsync is not ignored (%s)" % (owner, fate), "table-fsync-error-dropped|%s" % owner, x.where())
+
+
 def _rv_operand(rv):
     ops = _rvalue_operands(rv)
     if rv[0] == "agg" and ops:
